@@ -67,6 +67,57 @@ def path_history(rng, hid, length):
     return {"id": "p%d" % hid, "setup": setup, "calls": calls}
 
 
+def dot_history(rng, hid, length):
+    """Paths with "." components.  Inside a path they change nothing ("./a", "d/./c": same object); as the LAST component
+    ("." "./" "d/." "././") they name a directory through itself, which the host treats differently from the same directory
+    named with a trailing slash - the resolved path must keep the form the guest gave."""
+    setup = [{"call": "mkdirs", "path": "d"}, {"call": "mkdirs", "path": "e"}]
+    for nme in ("a", "d/c"):
+        if rng.random() < 0.8:
+            setup.append({"call": "mkfile", "path": nme, "bytes": [rng.randrange(256) for _ in range(rng.choice([0, 3]))]})
+    calls = [{"call": "open", "abi": "p", "dirfd": 3, "path": "e", "abs": False, "oflags": 2, "rd": True, "wr": False, "app": False},      # 4: empty directory
+             {"call": "open", "abi": "p", "dirfd": 3, "path": "d", "abs": False, "oflags": 2, "rd": True, "wr": False, "app": False}]      # 5
+    base = {3: "", 4: "e", 5: "d"}
+
+    def dotted(rel):
+        """(normalised path relative to the descriptor, raw form, dot?)"""
+        if rng.random() < 0.6:
+            raw = rng.choice([".", "./", "./.", "././", ".//", "./././"]) if rel == "" else \
+                rel + rng.choice(["/.", "/./", "/././", "/.//"]) if rng.random() < 0.7 else "./" + rel + "/."
+            return rel, raw, True
+        if rel == "":
+            return dotted(rng.choice(["a", "d", "n"]))
+        comps = rel.split("/")
+        raw = "/".join(x for cmp_ in comps for x in ([".", cmp_] if rng.random() < 0.6 else [cmp_]))
+        if raw == rel:
+            raw = "./" + rel
+        return rel, raw, False
+    for _ in range(length):
+        abi = rng.choice("pu")
+        dirfd = rng.choice([3, 3, 4, 5])
+        rels = {3: ["", "", "d", "e", "a", "n", "d/c", "d/n"], 4: ["", "", "n"], 5: ["", "", "c", "n"]}[dirfd]
+        rel, raw, dot = dotted(rng.choice(rels))
+        full = (base[dirfd] + "/" + rel).strip("/")
+        k = rng.choice(["mkdir", "rmdir", "rmdir", "unlink", "symlink", "readlink", "pathstat", "rename", "rename", "open"])
+        c = {"call": k, "abi": abi, "dirfd": dirfd, "path": rel, "rawpath": raw, "dot": dot, "parent": os.path.dirname(rel),
+             "under": [q for q in ("d/c", "d/n", "e/n", "e/zz", "d/zz") if q.startswith(full + "/")] if full else ["a", "d", "e", "d/c"]}
+        if k == "symlink":
+            c["target"] = "tgt"
+        elif k == "readlink":
+            c["buflen"] = 64
+        elif k == "rename":
+            fd2 = rng.choice([3, 3, 4, 5])
+            if rng.random() < 0.4:
+                rel2, raw2, dot2 = dotted(rng.choice({3: ["", "d", "e", "n"], 4: ["", "n"], 5: ["", "n"]}[fd2]))
+            else:
+                rel2, raw2, dot2 = "zz", "zz", False
+            c.update({"fd": fd2, "path2": rel2, "rawpath2": raw2, "dot2": dot2, "parent2": os.path.dirname(rel2)})
+        elif k == "open":
+            c.update({"abs": False, "oflags": rng.choice([0, 0, 2, 1, 1 | 4, 8]), "rd": True, "wr": rng.random() < 0.3, "app": False})
+        calls.append(c)
+    return {"id": "dot%d" % hid, "setup": setup, "calls": calls}
+
+
 def readdir_scenarios(rng, tier, exe, wd):
     """Listings of directories with 0..12 entries under varying buffer sizes and cookies; returns the trace for Readdir.tla."""
     traces, meta = [], []
@@ -75,7 +126,7 @@ def readdir_scenarios(rng, tier, exe, wd):
         n = rng.choice([0, 1, 2, 5, 12])
         names = []
         for k in range(n):
-            nm = "".join(rng.choice("abcdefghijklmnopqrstuvwxyz0123456789_-.") for _ in range(rng.choice([1, 2, 7, 23, 24, 25, 40])))
+            nm = "".join(rng.choice("abcdefghijklmnopqrstuvwxyz0123456789_-.") for _ in range(rng.choice([1, 2, 7, 23, 24, 25, 40, 40, 40, 200, 253, 254, 255, 255])))   # 255 = NAME_MAX, the longest name the host allows
             if nm not in names and nm not in (".", ".."):
                 names.append(nm)
         setup = [{"call": "mkdirs", "path": "dd"}]
@@ -172,6 +223,8 @@ def main():
                 v.deviation("resolve:wrong-result", {"case": case, "result_length": rlen, "expected_length": g["resLen"]})
         # (b) path operations on a tree: histories vs WasiFs.tla
         hists = [path_history(rng, j, 12) for j in range(200 if tier == "quick" else 4000)]
+        drng = random.Random(SEED + 1414)
+        hists += [dot_history(drng, j, 10) for j in range(60 if tier == "quick" else 1500)]
         st, exp = c12.run_all(v, hists, wd, tier, pid="C14", ls_after=("mkdir", "rmdir", "unlink", "symlink", "rename", "open"))
         states += st["states"]
         trans += st["transitions"]
